@@ -93,8 +93,14 @@ namespace xsv
             d.kind[i] = K_VAL;
         return d;
     }
-    inline const OpDef* find_op(const std::string& name, int type = -1)
+    // an operation name can be registered by two properties for the same type (to_int: C06 in the conversion family, C08 in
+    // the floating family): the definition of the running property wins
+    inline const OpDef* find_op(const std::string& name, int type = -1, const std::string& prop = "")
     {
+        if (!prop.empty())
+            for (auto& d : op_registry())
+                if (d.name == name && d.prop == prop && (type < 0 || d.judge[type]))
+                    return &d;
         for (auto& d : op_registry())
             if (d.name == name && (type < 0 || d.judge[type]))
                 return &d;
@@ -502,7 +508,7 @@ namespace xsv
             fprintf(stderr, "replay: need op type target imm in0...\n");
             return 2;
         }
-        const OpDef* d = find_op(tok[0], type_from_name(tok[1]));
+        const OpDef* d = find_op(tok[0], type_from_name(tok[1]), cx.opt.prop);
         if (!d)
         {
             fprintf(stderr, "replay: unknown op %s\n", tok[0].c_str());
